@@ -173,12 +173,13 @@ impl UpdateValidator for Vld {
 #[derive(Clone, Copy, Default)]
 pub struct Kb {
     pub collide: bool,
+    pub zero_even: bool,
 }
 
 impl Kb {
     pub fn pair(&self, k: u64) -> (u64, u64) {
         if self.collide {
-            (1000 + k / 2, k + 1)
+            (1000 + k / 2, if self.zero_even && k % 2 == 0 { 0 } else { k + 1 })
         } else {
             (k, 0)
         }
